@@ -32,7 +32,7 @@ var witnessName = map[maskSet]string{
 	mWildcardUnbacked: "donor-has-wildcard-gateway-mapping",
 	mStaleDestName:    "donor-has-destination-kind-service-name-without-a-service-defaults-destination",
 	mStaleHash:        "donor-has-config-entry-whose-stored-hash-is-not-the-hash-of-its-content",
-	mUnheldUUID:       "donor-lists-secret-uuid-that-no-secrets-row-of-a-non-dialing-peering-holds",
+	mUnheldUUID:       "donor-secret-uuid-list-differs-from-the-ids-held-by-the-secrets-rows-of-its-non-dialing-peerings",
 	mNodeSpelling:     "donor-has-service-row-whose-node-name-spelling-differs-from-its-node-row",
 	mNameSpelling:     "history-registered-one-service-name-in-two-letter-case-spellings",
 }
@@ -211,7 +211,8 @@ type witness struct {
 	orphanIDs   map[string]bool // quoted secret ids of secrets rows without a peering row
 	missing     map[string]bool // "upstream\x00downstream" pairs a registered proxy declares but no row records
 	staleHash   map[string]bool // "kind\x00name" of config entries whose stored hash is not the hash of their content
-	unheldIDs   map[string]bool // quoted ids in peering-secret-uuids that no secrets row holds
+	unheldIDs   map[string]bool // quoted ids in peering-secret-uuids that no secrets row of a non-dialing peering holds
+	unlisted    map[string]bool // quoted ids a secrets row of an existing non-dialing peering holds, missing from peering-secret-uuids
 	respelled   map[string]bool // "node\x00peer" (lower case) of nodes with a service row spelled otherwise
 	variants    map[string]bool // lower-cased service names registered in several spellings so far
 	usageRows   map[string]bool // ids of usage rows whose index is not max(nodes,services,kvs), or whose count is zero
@@ -267,7 +268,7 @@ func computeWitness(st *state.Store, hf histFacts) *witness {
 	renamed := hf.renamed
 	w := &witness{staleNames: map[string]bool{}, gwNames: map[string]bool{}, topoNames: map[string]bool{}, leftover: map[string]bool{},
 		staleKinds: map[string]bool{}, orphanIDs: map[string]bool{}, missing: map[string]bool{}, staleHash: map[string]bool{},
-		unheldIDs: map[string]bool{}, respelled: map[string]bool{}, variants: hf.variants, usageRows: map[string]bool{}, staleChecks: map[string]bool{}}
+		unheldIDs: map[string]bool{}, unlisted: map[string]bool{}, respelled: map[string]bool{}, variants: hf.variants, usageRows: map[string]bool{}, staleChecks: map[string]bool{}}
 	if len(hf.variants) > 0 {
 		w.masks |= mNameSpelling
 	}
@@ -385,12 +386,21 @@ func computeWitness(st *state.Store, hf histFacts) *witness {
 	}
 	// the ids a restore records: those of the secrets rows of peerings that do not dial
 	held := map[string]bool{}
+	listed := map[string]bool{}
+	for _, id := range uuids {
+		listed[id] = true
+	}
 	for _, s := range secrets {
 		if dialing[s.PeerID] {
 			continue
 		}
 		for _, id := range []string{s.GetEstablishment().GetSecretID(), s.GetStream().GetPendingSecretID(), s.GetStream().GetActiveSecretID()} {
 			held[id] = true
+			if id != "" && !listed[id] && peerings[s.PeerID] {
+				// (a row WITHOUT a peering is the orphan finding)
+				w.masks |= mUnheldUUID
+				w.unlisted[strconv.Quote(id)] = true
+			}
 		}
 	}
 	for _, id := range uuids {
@@ -565,7 +575,7 @@ func (d *storeDump) lenient(table string, w *witness, refresh bool) []string {
 			if id, ok := item.(string); ok && w.has(mOrphanSecret) && w.orphanIDs[strconv.Quote(id)] {
 				continue
 			}
-			if id, ok := item.(string); ok && w.has(mUnheldUUID) && w.unheldIDs[strconv.Quote(id)] {
+			if id, ok := item.(string); ok && w.has(mUnheldUUID) && (w.unheldIDs[strconv.Quote(id)] || w.unlisted[strconv.Quote(id)]) {
 				continue
 			}
 		}
@@ -626,9 +636,11 @@ func tableFinding(d tableDiff, w *witness) maskSet {
 			return mUnheldUUID
 		}
 		if w.has(mUnheldUUID) {
-			for q := range w.unheldIDs {
-				if strings.Contains(d.Donor+d.Other, q) {
-					return mUnheldUUID
+			for _, ids := range []map[string]bool{w.unheldIDs, w.unlisted} {
+				for q := range ids {
+					if strings.Contains(d.Donor+d.Other, q) {
+						return mUnheldUUID
+					}
 				}
 			}
 		}
@@ -755,6 +767,9 @@ func queryRule(name string, w *witness) (idxMasks maskSet, resultMask maskSet) {
 			idxMasks |= mCheckRefresh
 		}
 	case "ServiceChecks":
+		if w.suffix && w.has(mCheckRefresh) {
+			idxMasks |= mCheckRefresh // a name without instances reports the checks table's index
+		}
 		if w.has(mCheckRefresh) && w.staleNames[arg] {
 			idxMasks |= mCheckRefresh
 			resultMask = mCheckRefresh // the check is listed under the name it carries
